@@ -85,7 +85,14 @@ struct FindMembersContext {
     file_id: FileId,
     infer_guard: InferGuardRef,
     substitutor: Option<TypeSubstitutor>,
+    /// Nesting depth of the lookup: one level per union/intersection component and per generic
+    /// instantiation on the current path.
+    depth: usize,
 }
+
+/// A recursive generic alias (`---@alias X<T> A | X<T>`) expands to a union that contains its own
+/// instantiation again, which the type-id guard does not see. Bound the nesting instead.
+const MAX_FIND_MEMBERS_DEPTH: usize = 20;
 
 impl FindMembersContext {
     fn new(file_id: FileId, infer_guard: InferGuardRef) -> Self {
@@ -93,6 +100,7 @@ impl FindMembersContext {
             file_id,
             infer_guard,
             substitutor: None,
+            depth: 0,
         }
     }
     fn with_substitutor(&self, substitutor: TypeSubstitutor) -> Self {
@@ -100,6 +108,7 @@ impl FindMembersContext {
             file_id: self.file_id,
             infer_guard: self.infer_guard.clone(),
             substitutor: Some(substitutor),
+            depth: self.depth + 1,
         }
     }
 
@@ -108,6 +117,7 @@ impl FindMembersContext {
             file_id: self.file_id,
             infer_guard: self.infer_guard.fork(),
             substitutor: self.substitutor.clone(),
+            depth: self.depth + 1,
         }
     }
 
@@ -134,6 +144,10 @@ fn find_members_guard(
     ctx: &FindMembersContext,
     filter: &FindMemberFilter,
 ) -> FindMembersResult {
+    if ctx.depth >= MAX_FIND_MEMBERS_DEPTH {
+        return None;
+    }
+
     match &prefix_type {
         LuaType::TableConst(id) => {
             let member_owner = LuaMemberOwner::Element(id.clone());
